@@ -99,6 +99,31 @@ def build_params(world, shared=None):
 
 
 _CURRENT = {"ex": None}
+_PENALTY_SEAM = {"installed": False}
+
+
+def _install_penalty_seam():
+    if _PENALTY_SEAM["installed"]:
+        return
+    import pygradflow.penalty as _pen
+
+    def wrap(cls):
+        orig = cls.__dict__["update"]
+
+        def update(self, prev_iterate, next_iterate, _orig=orig):
+            ex = _CURRENT["ex"]
+            if ex is None:
+                return _orig(self, prev_iterate, next_iterate)
+            return ex._on_penalty_update(self, _orig, prev_iterate, next_iterate)
+
+        update._sim_wrapped = True
+        cls.update = update
+
+    for name in dir(_pen):
+        cls = getattr(_pen, name)
+        if isinstance(cls, type) and issubclass(cls, _pen.PenaltyStrategy) and "update" in cls.__dict__ and not getattr(cls.__dict__["update"], "_sim_wrapped", False) and not getattr(cls.__dict__["update"], "__isabstractmethod__", False):
+            wrap(cls)
+    _PENALTY_SEAM["installed"] = True
 
 
 def _recording_step_solver(problem, params, iterate, dt, rho):
@@ -255,23 +280,23 @@ class Execution:
     def log(self, ev):
         self.events.append(ev)
 
-    # penalty strategy is created inside solve(); hook its update lazily
+    # the penalty strategies' update() is observed at *class* level (like the linear solvers): whatever strategy object
+    # the solver consults - also one that replaced the original in the middle of a solve - is seen
     def _hook_penalty(self, solver):
-        ps = getattr(solver, "penalty_strategy", None)
-        if ps is None or self._hooked is ps:
-            return
-        self._hooked = ps
-        orig = ps.update
-        ex = self
+        _install_penalty_seam()
 
-        def update(prev_iterate, next_iterate):
+    def _on_penalty_update(self, ps, orig, prev_iterate, next_iterate):
+        ex = self
+        if ex.nested or ex.finished:
+            return orig(ps, prev_iterate, next_iterate)
+        if True:
             before = None
             if getattr(ps, "entries", None) is not None and hasattr(ps, "iterate_entry"):
                 try:
                     before = (list(ps.entries), float(ps.rho), tuple(float(v) for v in ps.iterate_entry(next_iterate)))
                 except Exception:  # noqa  (the pair cannot be formed: nothing to model)
                     before = None
-            res = orig(prev_iterate, next_iterate)
+            res = orig(ps, prev_iterate, next_iterate)
             if ex.trials:
                 tr = ex.trials[-1]
                 tr.penalty = (float(res.next_rho), bool(res.accept))
@@ -280,8 +305,6 @@ class Execution:
                     tr.filter_after = (list(ents), float(ps.rho))
                     tr.filter_before = before
             return res
-
-        ps.update = update
 
     # ---- outcome helpers
     @property
